@@ -317,17 +317,28 @@ fn shared_long_axis(ev: &mut Ev, seed: u64, iters: usize) {
     use vh::ndarray::Array2;
     use vh::ndarray_interp::interp1d::{Interp1D, Linear};
     let mut rng = Rng::derive(seed, "C20-shared-long-axis", &[0]);
-    for (round, n) in [4600usize, 9000, 300].into_iter().enumerate() {
+    for (round, n) in [4600usize, 9000, 300, 40000, 70000].into_iter().enumerate() {
         let mut pos = -7.25;
-        let x: Array1<f64> = (0..n)
+        let mut x: Array1<f64> = (0..n)
             .map(|_| {
                 let v = pos;
                 pos += 0.125 * (1 + rng.below(16)) as f64;
                 v
             })
             .collect();
+        // the longest axes end (and start) with a data gap much wider than the mean spacing
+        if n >= 40000 {
+            let span = x[n - 1] - x[0];
+            x[n - 1] += span * 0.03;
+            x[0] -= span * 0.01;
+        }
         let clean: Array2<f64> = Array2::from_shape_fn((n, 2), |(i, l)| ((i * 37 + l * 11) % 101) as f64 * 0.375 - 9.0 + i as f64 * 0.001);
-        let pool: Vec<f64> = (0..24).map(|_| x[0] + rng.f01() * (x[n - 1] - x[0])).collect();
+        let mut pool: Vec<f64> = (0..20).map(|_| x[0] + rng.f01() * (x[n - 1] - x[0])).collect();
+        // the first and the last interval are always in the pool
+        for t in [0.1, 0.6] {
+            pool.push(x[0] + (x[1] - x[0]) * t);
+            pool.push(x[n - 2] + (x[n - 1] - x[n - 2]) * t);
+        }
         let reference: Vec<Vec<u64>> = {
             let a = Interp1D::builder(clean.clone()).x(x.clone()).strategy(Linear::new()).build().unwrap();
             pool.iter().map(|&q| a.interp(q).unwrap().iter().map(|v| v.to_bits()).collect()).collect()
